@@ -273,7 +273,11 @@ fn exec_c<C: Suite>(scen: &Scenario) -> Exec {
     // (`internals` is used to CONSTRUCT the adversarial input; the verdict is accept / reject through the public API.)
     {
         let npk = C::normalised_pk(a.pk.clone());
-        if let Ok(bfl) = frost::compute_binding_factor_list(&a.package, npk.verifying_key(), &[]) {
+        if !crate::diag::AVAILABLE {
+            rep.probe("sub_R_preserving");
+            rep.probe("diag_unavailable");
+        }
+        if let Some((bfl, _)) = crate::diag::binding::<C>(&a.package, npk.verifying_key()) {
             let mut targets = vec![0usize, k - 1];
             if k >= 3 {
                 targets.push(k / 2);
@@ -281,7 +285,7 @@ fn exec_c<C: Suite>(scen: &Scenario) -> Exec {
             targets.dedup();
             for who in targets {
                 let target = ids[who];
-                let Some(rho) = bfl.get(&target).and_then(|b| sc_from_bytes::<C>(&b.serialize())) else { continue };
+                let Some(rho) = bfl.get(&target).and_then(|b| sc_from_bytes::<C>(b)) else { continue };
                 let old = a.package.signing_commitments()[&target];
                 let d = el_from_bytes::<C>(&old.hiding().serialize().unwrap_or_default());
                 let e = el_from_bytes::<C>(&old.binding().serialize().unwrap_or_default());
